@@ -40,6 +40,8 @@ import (
 
 type asEvent struct {
 	restart bool
+	resume  bool // U: restart with --resume (the new process loads what the autosave file holds)
+	corrupt bool // a resume whose file content is not a config of this protocol
 	n       string
 	persist byte // d p n
 	flags   string
@@ -65,6 +67,11 @@ func parseASEvents(s string) ([]asEvent, bool) {
 	for _, p := range strings.Split(s, ";") {
 		if p == "R" {
 			out = append(out, asEvent{restart: true, raw: p})
+			faultsInLife = 0
+			continue
+		}
+		if p == "U" {
+			out = append(out, asEvent{resume: true, raw: p})
 			faultsInLife = 0
 			continue
 		}
@@ -165,7 +172,7 @@ func tokenOfContent(c []byte, evs []asEvent) string {
 		return "~"
 	}
 	for _, e := range evs {
-		if e.restart || e.has('z') {
+		if e.restart || e.resume || e.has('z') {
 			continue
 		}
 		var w any
@@ -251,9 +258,18 @@ func ChildMain(args []string) {
 		if ev.restart {
 			continue
 		}
+		cfgJSON, force := ev.configJSON(), ev.has('f')
+		if ev.resume {
+			// cmd/commandfuncs.go cmdRun with --resume: read the autosave file, Load(config, true)
+			b, err := os.ReadFile(caddy.ConfigAutosavePath)
+			if err != nil {
+				continue
+			}
+			cfgJSON, force = b, true
+		}
 		before := caddy.ActiveContext().Context
 		mark(mkBegin)
-		err := caddy.Load(ev.configJSON(), ev.has('f'))
+		err := caddy.Load(cfgJSON, force)
 		after := caddy.ActiveContext().Context
 		switch {
 		case err != nil:
@@ -282,6 +298,8 @@ type traceOp struct {
 	complete bool // the call returned success (its effect happened)
 	killed   bool // the process was killed at this call
 	failed   bool // returned an error
+	injected bool // … because strace injected it (otherwise the call failed by itself)
+	readOnly bool // a read-only open: no effect, kept only because strace counts it
 	sys      string
 }
 
@@ -380,7 +398,8 @@ func parseTrace(text, dir string) []traceOp {
 			}
 			return fileOf(strings.TrimSuffix(rest[i+1:j], " (deleted)"))
 		}
-		op := traceOp{marker: -1, complete: complete, failed: failed, killed: unfinished || ret == "?", sys: sys}
+		op := traceOp{marker: -1, complete: complete, failed: failed, killed: unfinished || ret == "?", sys: sys,
+			injected: strings.Contains(rest, "(INJECTED)")}
 		switch sys {
 		case "faccessat", "faccessat2":
 			if arg(0) == pathM {
@@ -406,11 +425,16 @@ func parseTrace(text, dir string) []traceOp {
 			}
 			if sys != "creat" && !strings.Contains(rest, "O_TRUNC") && !strings.Contains(rest, "O_CREAT") &&
 				!strings.Contains(rest, "O_WRONLY") && !strings.Contains(rest, "O_RDWR") {
-				return // a read-only open does not change anything
+				op.name, op.file, op.readOnly = "ro", f, true
+				ops = append(ops, op)
+				return
 			}
 			op.name, op.file = "c", f
 			if !strings.Contains(rest, "O_TRUNC") && sys != "creat" {
 				op.name = "open-no-trunc"
+				if strings.Contains(rest, "O_EXCL") {
+					op.name = "x" // exclusive create: refused when the file exists
+				}
 			}
 		case "write", "pwrite64":
 			f := fdFile()
@@ -589,7 +613,7 @@ func (s *simFS) apply(o traceOp) {
 	case "c":
 		e := []byte{}
 		*s.get(o.file) = &e
-	case "open-no-trunc":
+	case "open-no-trunc", "x":
 		if *s.get(o.file) == nil {
 			e := []byte{}
 			*s.get(o.file) = &e
@@ -759,10 +783,27 @@ func runAS(line, hist string) core.Outcome {
 		// one process life: the events up to the next restart (at most one of them carries a
 		// fault); a kill ends the process early and the rest of the life runs in a new one
 		j := i
-		for j < len(evs) && !evs[j].restart {
+		if evs[j].resume {
+			j++ // a resume opens a life
+		}
+		for j < len(evs) && !evs[j].restart && !evs[j].resume {
 			j++
 		}
-		life := evs[i:j]
+		life := append([]asEvent(nil), evs[i:j]...)
+		resumeTok := ""
+		havePersistedBefore, lastPersistedBefore := havePersisted, lastPersisted
+		if life[0].resume {
+			tags["resume"] = true
+			tok := contentTok(sim.p, evs)
+			resumeTok = tok
+			if tok == "-" {
+				// no autosave file: nothing is resumed
+				outs = append(outs, "U:-[]{p="+contentTok(sim.p, evs)+",t="+contentTok(sim.t, evs)+"}")
+				life = life[1:]
+			} else {
+				life[0] = resumeEvent(tok)
+			}
+		}
 		pos := 0
 		for pos < len(life) {
 			seg := life[pos:]
@@ -827,6 +868,9 @@ func runAS(line, hist string) core.Outcome {
 			var obs []*loadObs
 			var cur *loadObs
 			for _, op := range res.ops {
+				if op.readOnly {
+					continue
+				}
 				switch {
 				case op.marker == mkBegin:
 					cur = &loadObs{end: -1}
@@ -941,8 +985,13 @@ func runAS(line, hist string) core.Outcome {
 				if resName == "ok" && persistsOn {
 					anyFault := false
 					for _, op := range lo.ops {
-						if op.failed || op.killed {
+						// only an INJECTED fault excuses a load that returned without having saved;
+						// an operation that fails by itself (e.g. EEXIST on a leftover temp file) does not
+						if op.killed || (op.failed && op.injected) {
 							anyFault = true
+						}
+						if op.failed && !op.injected {
+							tags["operation-failed-by-itself"] = true
 						}
 					}
 					if !anyFault {
@@ -956,8 +1005,22 @@ func runAS(line, hist string) core.Outcome {
 				if resName == "ok" || (resName == "killed" && lo.started) {
 					hadRunning = !ev.has('z')
 				}
-				outs = append(outs, resName+"["+strings.Join(names, ",")+"]{p="+contentTok(sim.p, evs)+",t="+contentTok(sim.t, evs)+"}")
-				if ev.rejected() != (resName == "rej") && resName != "killed" && resName != "same" {
+				prefix := ""
+				if ev.resume {
+					prefix = "U:" + resumeTok + "="
+					// --resume must get the latest config whose persisted load had returned
+					if resName != "ok" {
+						fail("autosave-resume-fails",
+							fmt.Sprintf("restart with --resume in %q could not load the autosave file (%s): %s", hist, resumeTok, resName))
+					}
+					if havePersistedBefore && resumeTok != lastPersistedBefore {
+						fail("autosave-resume-gets-outdated-config",
+							fmt.Sprintf("restart with --resume in %q loaded %s, the latest config whose load had returned is %s",
+								hist, resumeTok, lastPersistedBefore))
+					}
+				}
+				outs = append(outs, prefix+resName+"["+strings.Join(names, ",")+"]{p="+contentTok(sim.p, evs)+",t="+contentTok(sim.t, evs)+"}")
+				if !ev.resume && ev.rejected() != (resName == "rej") && resName != "killed" && resName != "same" {
 					fail("harness-probe-config-verdict", fmt.Sprintf("load %s of %q: expected rejected=%v, got %s", ev.raw, hist, ev.rejected(), resName))
 				}
 			}
@@ -1004,6 +1067,35 @@ func runAS(line, hist string) core.Outcome {
 	}
 	sort.Strings(o.Tags)
 	return o
+}
+
+// resumeEvent is what the parent expects of a `U`: the load of the config named by the token the
+// autosave file holds, with forceReload.
+func resumeEvent(tok string) asEvent {
+	ev := asEvent{resume: true, raw: "U", persist: 'd', flags: "f"}
+	if tok == "null" {
+		ev.flags = "fz"
+		ev.n = "0"
+		return ev
+	}
+	i := 0
+	for i < len(tok) && tok[i] >= '0' && tok[i] <= '9' {
+		i++
+	}
+	if i == 0 || i >= len(tok) || !strings.ContainsRune("dpn", rune(tok[i])) {
+		ev.corrupt = true
+		ev.n = "0"
+		return ev
+	}
+	ev.n, ev.persist = tok[:i], tok[i]
+	for _, c := range tok[i+1:] {
+		if !strings.ContainsRune("xyji", c) {
+			ev.corrupt = true
+			return ev
+		}
+		ev.flags += string(c)
+	}
+	return ev
 }
 
 func copyIfExists(src, dst string) {
